@@ -22,6 +22,7 @@ NAME_ALPHA = ["a", "B", "1", " ", "é", "€", "#", ":", '"', "\\", "{", "}", ";
 PREFIXES = [None, ("# rule:", "# about:"), ("#N=", "#D="), ("# Filter: ", "# Description: "), ("#>", "#<"),
             ("# [rule] ", "# (desc) "), ("#** ", "#++ "), ("# Rule? ", "# Desc. "), ("#\\n ", "#\\d "),
             # pairs in which neither marker is a prefix of the other, but one is once its trailing blank is ignored
+            ("# r\u00e8gle\u00a0: ", "# \u2192 "), ("#\u20ac", "#\u00a3 "),
             ("## ", "### "), ("### ", "## "), ("# Rule ", "# Rule's purpose: "), ("#N ", "#N: "), ("#D: ", "#D ")]
 
 
